@@ -239,6 +239,16 @@ func c16Jobs(thorough bool) []c16Job {
 			jobs = append(jobs, c16Job{Kind: "negative", Shapes: []string{s}, Tables: []int{0}, Neg: "field:" + f.Column})
 		}
 		jobs = append(jobs, c16Job{Kind: "negative", Shapes: []string{s}, Tables: []int{0}, Neg: "notify"})
+		// notification lists of length 1..4, the entry without table column at every position
+		for l := 1; l <= 4; l++ {
+			for pos := 0; pos < l; pos++ {
+				jobs = append(jobs, c16Job{Kind: "negative", Shapes: []string{s}, Tables: []int{0}, Neg: fmt.Sprintf("notify:%d:%d", l, pos)})
+			}
+		}
+		// two more block fields after the shape's own inputs/fields, each of the two without its column
+		for _, f := range []string{"block_time", "block_hash"} {
+			jobs = append(jobs, c16Job{Kind: "negative", Shapes: []string{s}, Tables: []int{0}, Neg: "xfield:" + f})
+		}
 		jobs = append(jobs, c16Job{Kind: "negative", Shapes: []string{s}, Tables: []int{0}, Neg: "notify-ok"})
 	}
 	// F. reserved words
@@ -316,6 +326,25 @@ func c16Build(j c16Job) (*c16Built, error) {
 				}
 			}
 		}
+		if strings.HasPrefix(j.Neg, "xfield:") && i == 0 {
+			d.Fields = append(d.Fields, world.Field{Name: "block_time", Column: "block_time"}, world.Field{Name: "block_hash", Column: "block_hash"})
+		}
+		if strings.HasPrefix(j.Neg, "notify:") && i == 0 {
+			var l, pos int
+			fmt.Sscanf(j.Neg, "notify:%d:%d", &l, &pos)
+			pool := []string{"block_num", "tx_idx"}
+			for _, c := range d.Columns() {
+				pool = append(pool, c[0])
+			}
+			for k, n := 0, 0; k < l; k++ {
+				if k == pos {
+					d.Notify = append(d.Notify, "no_such_column")
+				} else {
+					d.Notify = append(d.Notify, pool[n%len(pool)])
+					n++
+				}
+			}
+		}
 		if j.Neg == "notify" && i == 0 {
 			d.Notify = []string{"no_such_column"}
 		}
@@ -351,6 +380,8 @@ func c16Build(j c16Job) (*c16Built, error) {
 			drop = strings.TrimPrefix(j.Neg, "input:")
 		case strings.HasPrefix(j.Neg, "field:") && i == 0:
 			drop = strings.TrimPrefix(j.Neg, "field:")
+		case strings.HasPrefix(j.Neg, "xfield:") && i == 0:
+			drop = strings.TrimPrefix(j.Neg, "xfield:")
 		}
 		if drop != "" {
 			var nc []any
